@@ -1172,4 +1172,12 @@ theorem cmpTailD_spec (zp : List Nat) (hL : Limbs zp) (ht : TopNZ zp) (hne : zp 
 /-- exact value of a finite double scaled by 2^1074, with its sign -/
 def dblInt (b : Nat) : Int := if sigOf b = 1 then -(dblNum b : Int) else (dblNum b : Int)
 
+/-! ### mpf -/
+
+/-- signed mantissa of an mpf: value = F.mant · B^(exp - |size|) -/
+def F.mant (f : F) : Int := if f.size < 0 then -(val f.d : Int) else (val f.d : Int)
+
+theorem truncToDouble_zero (e : Int) : truncToDouble 0 e = 0 := by
+  simp [truncToDouble, truncate53, encode, mkBits, boolToNat]
+
 end Mpir.Conv
